@@ -47,7 +47,7 @@ Example c13_stop_nonvacuous_hyps :
   StronglySorted (fun a b => bnum a < bnum b) cx_merged /\ Forall (fun b => bnum b < 15) cx_merged /\
   j_mode (cx_cs s) = 0 /\ j_filter (cx_cs s) = 0 /\
   filter_pass (cx_cs s) SNew = true /\ filter_pass (cx_cs s) SNewIrr = true /\
-  eventual_tip (cx_cs s) cx_w cx_canon /\ files_agree (cx_cs s) cx_w cx_merged /\
+  eventual_tip (cx_cs s) cx_w cx_canon /\
   run_start (cx_cs s) cx_w <= j_stop (cx_cs s) /\
   snd (stream_run (cx_cs s) cx_w [(3, 1); (12, 2)] 15 cx_merged []) <> JInvalidArg /\
   snd (stream_run (with_stop (cx_cs s) 0) cx_w [(3, 1); (12, 2)] 15 cx_merged []) = JNil /\
@@ -65,7 +65,6 @@ Proof.
     (split; [discriminate|]); (split; [vm_compute; discriminate|]); (split; [exact Hsorted|]); (split; [exact Hlt|]);
     (split; [reflexivity|]); (split; [reflexivity|]); (split; [reflexivity|]); (split; [reflexivity|]);
     (split; [apply eventual_tip_b_sound; vm_compute; reflexivity|]);
-    (split; [apply files_agree_b_sound; vm_compute; reflexivity|]);
     (split; [vm_compute; discriminate|]); (split; [vm_compute; discriminate|]); (split; [vm_compute; reflexivity|]).
   - exists (cx_b 8). split; [vm_compute; tauto | reflexivity].
   - exists (cx_b 13). split; [vm_compute; tauto | reflexivity].
